@@ -68,7 +68,8 @@ def generate(seed, tier):
             "explicit_D": rng.random() < 0.7, "sut_seed": rng.randint(0, 10**6),
             "tolerance": rng.choice([None, None, 1e-3, 0.1, 1.0]), "check_every": rng.choice([1, 2, 3, 10]),
             "n_iter": rng.randint(2, 12 if tier == "quick" else 40),
-            "rewire_at": rng.choice([None, None, 1, 2, 3]), "rewire_seed": rng.randint(0, 10**6)}
+            "rewire_at": rng.choice([None, None, 1, 2, 3]), "rewire_seed": rng.randint(0, 10**6),
+            "w_scale": rng.choice([None] * 5 + [1e-9, 1e-6, 1e4])}
 
 
 # ------------------------------------------------------------------ brute force
@@ -99,6 +100,16 @@ def exact_loglik(u, w, N, D, data):
     return tot
 
 
+class _Tol:
+    """np.allclose with an absolute tolerance that follows the magnitude of the definition (1e-12 at magnitude >= 1)."""
+
+    @staticmethod
+    def close(got, want):
+        want = np.asarray(want, dtype=float)
+        mx = float(np.max(np.abs(want))) if want.size else 0.0
+        return np.allclose(got, want, rtol=1e-9, atol=1e-12 * (min(1.0, mx) if mx > 0 else 1.0))
+
+
 def _check_closed_forms(model, u, w, N, D, stats, where):
     from hypergraphx.linalg.linalg import hye_list_to_binary_incidence
 
@@ -107,7 +118,7 @@ def _check_closed_forms(model, u, w, N, D, stats, where):
     try:
         lam = np.asarray(model.poisson_params(inc)).ravel()
         ref = np.array([_lam(u, w, e) for e in edges])
-        if not np.allclose(lam, ref, rtol=1e-9, atol=1e-12):
+        if not _Tol.close(lam, ref):
             raise Violation("C15/closed-form/poisson_params", {"where": where, "library": short(lam.tolist()), "definition": short(ref.tolist())})
         for d in range(2, D + 1):
             lk = float(model.log_kappa(d))
@@ -126,10 +137,10 @@ def _check_closed_forms(model, u, w, N, D, stats, where):
             for i in e:
                 deg[i] += m
         got = np.asarray(model.expected_degree(per_node=True)).ravel()
-        if not np.allclose(got, deg, rtol=1e-9, atol=1e-12):
+        if not _Tol.close(got, deg):
             raise Violation("C15/closed-form/expected_degree[per_node]", {"where": where, "library": short(got.tolist()), "definition": short(deg.tolist())})
         got = float(model.expected_degree(per_node=False))
-        if abs(got - deg.mean()) > 1e-9 * max(1e-12, abs(deg.mean())) + 1e-12:
+        if not _Tol.close(got, deg.mean()):
             raise Violation("C15/closed-form/expected_degree[average]", {"where": where, "library": got, "definition": float(deg.mean())})
         # the same for size selections that do not start at 2
         sels = [np.arange(3, D + 1)] if D >= 3 else []
@@ -144,10 +155,10 @@ def _check_closed_forms(model, u, w, N, D, stats, where):
                     for i in e:
                         degs[i] += m
             got = np.asarray(model.expected_degree(per_node=True, d=sel)).ravel()
-            if not np.allclose(got, degs, rtol=1e-9, atol=1e-12):
+            if not _Tol.close(got, degs):
                 raise Violation("C15/closed-form/expected_degree[per_node,d]", {"where": where, "d": short(sel), "library": short(got.tolist()), "definition": short(degs.tolist())})
             got = float(model.expected_degree(per_node=False, d=sel))
-            if abs(got - degs.mean()) > 1e-9 * max(1e-12, abs(degs.mean())) + 1e-12:
+            if not _Tol.close(got, degs.mean()):
                 raise Violation("C15/closed-form/expected_degree[average,d]", {"where": where, "d": short(sel), "library": got, "definition": float(degs.mean())})
         if D >= 3:
             degs = np.zeros(N)
@@ -156,7 +167,7 @@ def _check_closed_forms(model, u, w, N, D, stats, where):
                     for i in e:
                         degs[i] += m
             got = np.asarray(model.degree_sequence(include_dyadic=False, expected=True)).ravel()
-            if not np.allclose(got, degs, rtol=1e-9, atol=1e-12):
+            if not _Tol.close(got, degs):
                 raise Violation("C15/closed-form/degree_sequence[expected,no-dyadic]", {"where": where, "library": short(got.tolist()), "definition": short(degs.tolist())})
             dims3 = model.dimension_sequence(include_dyadic=False, expected=True)
             want3 = {}
@@ -310,6 +321,12 @@ def execute(case):
 
         m0 = HyMMSBM(u=np.array(case["u"], dtype=float), w=np.array(case["w"], dtype=float), max_hye_size=case["D"])
         _check_closed_forms(m0, np.array(case["u"]), np.array(case["w"]), N, case["D"], stats, "supplied parameters")
+        if case.get("w_scale"):
+            # the same parameters at another magnitude (affinities around 1e-9 ... 1e4): closed forms are scale-free
+            ws = np.array(case["w"], dtype=float) * case["w_scale"]
+            ms = HyMMSBM(u=np.array(case["u"], dtype=float), w=ws, max_hye_size=case["D"])
+            _check_closed_forms(ms, np.array(case["u"]), ws, N, case["D"], stats, f"supplied parameters, w scaled by {case['w_scale']}")
+            stats["scaled_parameter_states"] = stats.get("scaled_parameter_states", 0) + 1
     except Violation as v:
         return {"violation": {"sig": v.sig, "detail": v.detail}, "digest": "violation:" + v.sig, "stats": {},
                 "sample": {"case": case}}
